@@ -26,20 +26,22 @@ def counter_analysis(R, clause, fid, h, tag):
             continue
         incs = set()
         other = set()
+        steps = set()
         for (node, wr, wp, v) in eng.writes_log:
             if wr != root or wp != () or node not in loopn:
                 continue
-            if isinstance(v, tuple) and v and v[0] == "i" and v[1] == (1, ((ps, 1),)):
-                incs.add(node)
+            if isinstance(v, tuple) and v and v[0] == "i" and v[1][1] == ((ps, 1),) and v[1][0] != 0:
+                incs.add(node)          # counting up (retry_cnt += 1) or down (retries_left -= 1)
+                steps.add(v[1][0])
             elif isinstance(v, tuple) and v and v[0] == "i" and v[1] == (0, ((ps, 1),)):
                 pass  # copy of itself
             else:
                 other.add(node)
-        if incs:
-            cands.append((root, ps, incs, other))
+        if incs and len(steps) == 1:
+            cands.append((root, ps, incs, other, steps.pop()))
     ok_any = False
     why = "no counter incremented on the receive-failed path"
-    for (root, ps, incs, other) in cands:
+    for (root, ps, incs, other, step) in cands:
         # (i) every cycle from a receive-failed edge back to the loop head passes an increment
         bad = [e for e in err_edges if head in g.reachable([e[1]], avoid_nodes=incs | outside)]
         if bad:
@@ -59,12 +61,19 @@ def counter_analysis(R, clause, fid, h, tag):
                     ss = set(s for s, _ in a[1]) | set(s for s, _ in b[1])
                     if ps in ss and (not a[1] or not b[1]):
                         op = c[1][1]
+                        if not a[1]:        # bound OP counter: read it as counter OP' bound
+                            op = {"Lt": "Gt", "Gt": "Lt", "Le": "Ge", "Ge": "Le"}.get(op, op)
                         truth = c[2]
                         const = a[0] if not a[1] else b[0]
                         other_side = b if not a[1] else a
                         limit = const - other_side[0]   # counter_head + k  OP const  ->  counter_head OP const-k
                         tests.append((edge, op, truth, limit + other_side[0]))
-        stop_edges = [t[0] for t in tests if (t[1] in ("Eq", "Ge", "Gt") and t[2]) or (t[1] in ("Ne", "Lt", "Le") and not t[2])]
+        # the edges on which the bound is known to be reached: counter ==/>=/> bound when counting up, ==/<=/< when counting down
+        hit = ("Eq", "Ge", "Gt") if step > 0 else ("Eq", "Le", "Lt")
+        miss = ("Ne", "Lt", "Le") if step > 0 else ("Ne", "Gt", "Ge")
+        if abs(step) != 1:
+            hit, miss = hit[1:], miss[1:]       # an equality test can be stepped over
+        stop_edges = [t[0] for t in tests if (t[1] in hit and t[2]) or (t[1] in miss and not t[2])]
         go_edges = [t[0] for t in tests if t[0] not in stop_edges]
         if not stop_edges:
             why = "no test of the retry counter against a bound inside the loop"
@@ -88,13 +97,16 @@ def counter_analysis(R, clause, fid, h, tag):
             why = "reaching the retry bound does not end the transfer with an error at once"
             continue
         # (ii') entry value: constant below the bound
-        bound = max(t[3] for t in tests)
+        bound = max(t[3] for t in tests) if step > 0 else min(t[3] for t in tests)
         inits = [v for (node, wr, wp, v) in eng.writes_log if wr == root and wp == () and node not in loopn]
-        init_ok = inits and all(v[0] == "i" and not v[1][1] and v[1][0] < bound for v in inits)
+        init_ok = inits and all(v[0] == "i" and not v[1][1] and (v[1][0] < bound if step > 0 else v[1][0] > bound) for v in inits)
         if not init_ok:
-            why = "the retry counter is not initialised to a constant below the bound before the loop"
+            why = "the retry counter is not initialised to a constant on the near side of the bound before the loop"
             continue
-        ok_any = {"root": root, "sym": ps, "incs": incs, "bound": bound, "stop_edges": stop_edges, "go_edges": go_edges}
+        # how many consecutive failed receives it takes to reach the bound from the initial value
+        far = max(v[1][0] for v in inits) if step > 0 else min(v[1][0] for v in inits)
+        budget = abs(bound - far) // abs(step)
+        ok_any = {"root": root, "sym": ps, "incs": incs, "bound": bound, "budget": budget, "stop_edges": stop_edges, "go_edges": go_edges}
         clause.samples.append({"loop": tag, "counter": short_place(root), "bound": bound, "increments": len(incs),
                                "receive-failed edges": len(err_edges)})
         break
